@@ -34,7 +34,7 @@ func init() {
 			"sources change only through RegisterString together with the loader entry, so every path agrees on the current source (C15 owns cache/loader policy)",
 			"pool scan runs single-goroutine with GOMAXPROCS(1) so that sync.Pool per-P slots are drained completely",
 		},
-		quick: 800, thorough: 12000, minQuick: 400, minThorough: 5000,
+		quick: 1200, thorough: 12000, minQuick: 400, minThorough: 5000,
 	}}
 	Register(p)
 	oneshots["C01"] = p.oneshot
@@ -80,6 +80,36 @@ var c01BadTemplates = map[string]string{
 	"bad_macro":   "{% import 'lib' as l %}{{ l.nomacro() }}",
 }
 
+// c01Twins: groups of small self-contained templates that differ in one detail a lossy memo key could drop (regex flags,
+// format strings, separators, argument lists). Rendering the members of a group in varying orders, on one or several
+// engines, makes any process-wide cache keyed too coarsely visible as history dependence.
+var c01Twins = [][]string{
+	{"{% set t = 'ABC-42' %}{{ t matches '/^[a-z]+-[0-9]+$/' ? 'm' : 'n' }}", "{% set t = 'ABC-42' %}{{ t matches '/^[a-z]+-[0-9]+$/i' ? 'm' : 'n' }}"},
+	{"{{ 'abc' matches '/B/' ? 1 : 0 }}", "{{ 'abc' matches '/B/i' ? 1 : 0 }}", "{{ 'abc' matches '/b/' ? 1 : 0 }}", "{{ 'a.c' matches '/a.c/' ? 1 : 0 }}{{ 'abc' matches '/a\\.c/' ? 1 : 0 }}"},
+	{"{{ '2024-03-05 14:07:09'|date('Y-m-d') }}", "{{ '2024-03-05 14:07:09'|date('d.m.Y H:i') }}", "{{ '2024-03-05 14:07:09'|date('D, d M y') }}", "{{ '2023-12-31 23:59:59'|date('Y-m-d') }}"},
+	{"{{ 1234.567|number_format(2) }}", "{{ 1234.567|number_format(2, ',', '.') }}", "{{ 1234.567|number_format(0) }}", "{{ 1234.567|number_format(2, '.', ' ') }}"},
+	{"{{ 'a, b,c'|split(',')|join('|') }}", "{{ 'a, b,c'|split(', ')|join('|') }}", "{{ 'a, b,c'|split(',', 2)|join('|') }}"},
+	{"[{{ '  xx  '|trim }}]", "[{{ 'xx__'|trim('_') }}]", "[{{ '__xx__'|trim('_') }}]"},
+	{"{{ '%05d'|format(42) }}", "{{ '%5d'|format(42) }}", "{{ '%s-%s'|format('a', 'b') }}"},
+	{"{{ 'Hello'|replace({'l': 'L'}) }}", "{{ 'Hello'|replace({'l': 'x'}) }}", "{{ 'Hello'|replace({'H': 'L'}) }}"},
+	{"{{ [3, 1, 2]|sort|join }}", "{{ [3, 1, 2]|sort|reverse|join }}", "{{ [3, 1, 2]|reverse|join }}", "{{ ['b', 'a']|sort|join }}"},
+	{"{{ 2.5|round }}", "{{ 2.5|round(0, 'floor') }}", "{{ 2.45|round(1) }}", "{{ 2.45|round(1, 'ceil') }}"},
+	{"{{ nope|default('d1') }}", "{{ nope|default('d2') }}", "{{ ''|default('d1') }}", "{{ 'v'|default('d1') }}"},
+	{"{{ range(1, 5)|join(',') }}", "{{ range(1, 5, 2)|join(',') }}", "{{ range(5, 1)|join(',') }}"},
+	{"{{ 'a-b-c'|split('-')|first }}", "{{ 'a-b-c'|split('-')|last }}", "{{ 'a-b-c'|first }}", "{{ 'a-b-c'|last }}"},
+	{"{{ 'abcdef'|slice(1) }}", "{{ 'abcdef'|slice(1, 1) }}", "{{ 'abcdef'|slice(-2) }}", "{{ [1, 2, 3]|slice(1)|join }}"},
+	{"{{ {'a': 1, 'b': 2}|keys|join }}", "{{ {'b': 2, 'a': 1}|keys|join }}", "{{ {'a': 1, 'b': 2}|length }}", "{{ {'a': 1}|merge({'c': 3})|keys|join }}"},
+	{"{{ 'x' in ['x', 'y'] ? 1 : 0 }}", "{{ 'x' in 'xyz' ? 1 : 0 }}", "{{ 'z' in ['x', 'y'] ? 1 : 0 }}"},
+	{"{{ cycle(['a', 'b'], 1) }}", "{{ cycle(['a', 'b', 'c'], 1) }}", "{{ cycle(['a', 'b'], 2) }}"},
+	{"{{ 'é'|upper }}{{ 'ABC'|lower }}", "{{ 'É'|lower }}{{ 'abc'|upper }}", "{{ 'hello world'|title }}", "{{ 'hello world'|capitalize }}"},
+	{"{{ 'a<b'|escape }}", "{{ 'a<b'|e }}", "{{ 'a<b'|raw }}", "{{ 'a<b' }}"},
+	{"{{ 10 > 9 ? 'y' : 'n' }}", "{{ '10' > '9' ? 'y' : 'n' }}", "{{ 10 > '9' ? 'y' : 'n' }}"},
+	{"{{ max(1, 5, 3) }}", "{{ min(1, 5, 3) }}", "{{ max([1, 5, 3]) }}"},
+	{"{{ 'a b'|url_encode }}", "{{ 'a&b'|url_encode }}", "{{ 'a b'|nl2br }}", "{{ 'a\nb'|nl2br }}"},
+	{"{{ [1, 'a', null]|json_encode }}", "{{ {'k': [1, 2]}|json_encode }}", "{{ 'q\"'|json_encode }}"},
+	{"{{ 'tag <b>x</b>'|striptags }}", "{{ 'tag <i>y</i>'|striptags }}", "{{ '<b>x</b>'|length }}"},
+}
+
 func (p *c01) gen(seed uint64, idx int) *c01History {
 	r := core.NewRand("C01", seed, idx)
 	h := &c01History{ts: GenTSet(r.Fork(), fmt.Sprintf("h%d·", idx))}
@@ -93,7 +123,17 @@ func (p *c01) gen(seed uint64, idx int) *c01History {
 	}
 	h.nEng = r.Range(1, 3)
 	n := r.Range(8, 60)
-	entries := h.ts.Entries
+	entries := append([]string{}, h.ts.Entries...)
+	for g := 0; g < 4; g++ {
+		gi := r.Intn(len(c01Twins))
+		for mi, src := range c01Twins[gi] {
+			name := fmt.Sprintf("twin%d_%d", gi, mi)
+			if _, dup := h.srcs[name]; !dup {
+				h.srcs[name] = src
+				entries = append(entries, name)
+			}
+		}
+	}
 	bads := sortedKeys(c01BadTemplates)
 	cacheOn := make([]bool, h.nEng)
 	for i := range cacheOn {
